@@ -326,3 +326,58 @@ class T3World(World):
         if self.nmaxb > 255 and n > 255 * 16:
             labels.append("t3_three_byte_block_numbers")
         return labels
+
+
+# ----------------------------------------------------------------------------
+# Type 4
+# ----------------------------------------------------------------------------
+class T4World(World):
+    """Type 4 Tag: CC file E103h, NDEF file E104h of mfs bytes.  ver 0x20
+    (NLEN 2 bytes, control TLV 04) or 0x30 (NLEN 4 bytes, TLV 06).  MLe/MLc
+    may be symbolic integers."""
+    kind = "tt4"
+
+    def __init__(self, sx, ver, mle, mlc, mfs, oldlen=0, typ="A", fsci=8, fwi=4,
+                 aid_v=2, tx_size=None, wtx_at=()):
+        self.sx = sx
+        nl = 2 if ver >> 4 < 3 else 4
+        self.nl = nl
+        b2 = lambda v: [v >> 8, v & 0xFF]
+        if nl == 2:
+            tlv = [0x04, 0x06, 0xE1, 0x04] + b2(mfs) + [0x00, 0x00]
+        else:
+            tlv = [0x06, 0x08, 0xE1, 0x04, 0, 0] + b2(mfs) + [0x00, 0x00]
+        cc = b2(7 + len(tlv)) + [ver] + b2(mle) + b2(mlc) + tlv
+        nfile = [None] * mfs
+        if nl == 2:
+            nfile[0:2] = b2(oldlen)
+        else:
+            nfile[0:4] = [0, 0] + b2(oldlen)
+        for i in range(nl, mfs):
+            nfile[i] = sx.byte("f[%d]" % i)
+        self.cap = mfs - nl
+        self.oldlen = oldlen
+        self.old = sx.mkbytes(nfile[nl:nl + oldlen], False)
+        self.sim = tags.Tt4Card({0xE103: cc, 0xE104: nfile}, mle, mlc, fsci=fsci,
+                                fwi=fwi, typ=typ, aid_v=aid_v, tx_size=tx_size,
+                                wtx_at=wtx_at)
+        base = self.sim.base[0xE104]
+        self.area = set(range(base, base + mfs))
+        self.clf = tags.SimClf(self.sim)
+        self.unit = 1
+
+    def fresh_tag(self):
+        # a fresh activation: the card is deselected / re-powered
+        c = self.sim
+        c.mute = False
+        c.activated = False
+        c.bn = 1
+        c.last, c.rx, c.tx, c.pending = None, [], [], None
+        c.app, c.cur = False, None
+        return nfc.tag.activate(self.clf, self.target())
+
+    def target(self):
+        return tags.tt4_target(self.sim)
+
+    def geometry(self, n):
+        return []
